@@ -760,8 +760,18 @@ def rule_P14(ctx, rule: str = "P14") -> None:
     ctx.floor(rule, "per-member writers of shared output flags", n, 1)
 
 
+def _x3(ctx) -> None:
+    from .c13 import rule_X3
+    rule_X3(ctx)        # the output imports only if a reference to another package is classified on package components
+
+
+def _x10(ctx) -> None:
+    from .c13 import rule_X10
+    rule_X10(ctx)       # ... and the import line registered for it names that package
+
+
 def run(ctx) -> None:
-    for name, fn in (("P14", rule_P14), ("P1", template.rule_P1), ("P2", rule_P2), ("P3", rule_P3), ("P4", rule_P4), ("P5", rule_P5), ("P6", rule_P6), ("P7", rule_P7), ("P8", rule_P8), ("Y2iii", template.rule_Y2iii), ("P9", rule_P9), ("P10", rule_P10), ("P11", rule_P11), ("P12", rule_P12), ("P13", rule_P13)):
+    for name, fn in (("X3", _x3), ("X10", _x10), ("P14", rule_P14), ("P1", template.rule_P1), ("P2", rule_P2), ("P3", rule_P3), ("P4", rule_P4), ("P5", rule_P5), ("P6", rule_P6), ("P7", rule_P7), ("P8", rule_P8), ("Y2iii", template.rule_Y2iii), ("P9", rule_P9), ("P10", rule_P10), ("P11", rule_P11), ("P12", rule_P12), ("P13", rule_P13)):
         ctx.rules_run.append(name)
         fn(ctx)
     from . import phases
